@@ -4,7 +4,7 @@
                 unknown, method=..., preauth = auth client stack with Authorization preset); ignored here
         tbl     comma separated integers, or -
         cancel  - | <tc>:c | <tc>:d
-        bodykind [M|m]N | R | O | G<k>      (prefix M = manifest push through an auth client, m = through another client)
+        bodykind [M|m]N | B (http.NoBody, no GetBody) | R | O | G<k>      (prefix M = manifest push through an auth client, m = through another client)
         pred    - (DefaultPredicate) | <code><R|S|F>,...;d<R|S|F>;e<R|S|F>  (status table; other statuses; transport errors)
         script  beh;beh;... or -   beh = <out>/<read>/<lat>  read = * | <k>
                 out = S<code>:<hexRetryAfter>:<chal> | E<isnet><timeout><temporary>[:shape] | TO (=E111) | ER (=E000)
@@ -68,6 +68,7 @@ let parse_cancel (s : string) : cancel =
 let parse_kind (s : string) : bodykind =
   match s.[0] with
   | 'N' -> KNone
+  | 'B' -> KNoBody
   | 'R' -> KReplay
   | 'O' -> KOneShot
   | 'G' -> KGetBodyErr (nat_of_int (int_of_string (String.sub s 1 (String.length s - 1))))
